@@ -114,6 +114,10 @@ func streamDispatch(c *ctx) {
 				}
 			}
 			k[iana.KeyParameterKeyOps] = key.Ops(fam)
+		} else if c.r.intn(6) == 0 {
+			// key_ops present and empty (what ecdh.ToPublicKey writes into the public key of a restricted private key): no
+			// restriction, in the constructed form and after every round trip
+			k[iana.KeyParameterKeyOps] = key.Ops{}
 		}
 		orc.onCurve = true
 		base := emit(k, orc, fmt.Sprintf("alg=%d form=original", a.alg))
